@@ -19,7 +19,7 @@ use crate::ops::{
     Reciprocal, ReduceMean, RepeatInterleave, Shape, Silu, Softmax, Swish, SymbolInfo, Transpose,
 };
 use crate::optimize::pattern_matcher::{Match, Pattern};
-use crate::value::ValueType;
+use crate::value::{DataType, ValueType};
 
 #[derive(Debug)]
 pub struct FusedOp {
@@ -1412,6 +1412,13 @@ impl PatternFusion for RepeatInterleaveFusion {
             .ok_or(FusionError::NoMatch)?
             .shape()
             .ok_or(FusionError::CheckFailed("unknown input shape"))?;
+
+        // The RepeatInterleave operator only supports float inputs.
+        let in_dtype = graph.get_node(x_id).and_then(|n| n.dtype());
+        if in_dtype != Some(ValueType::Tensor(DataType::Float)) {
+            return Err(FusionError::CheckFailed("input is not a float tensor"));
+        }
+
         let out_shape = graph
             .get_node(reshape_out)
             .ok_or(FusionError::NoMatch)?
